@@ -200,6 +200,10 @@ def _isotherm_item(draw):
         "T": round(draw(st.floats(60.0, 500.0)), 2), "units": draw(_units()),
         "meta": draw(st.dictionaries(st.sampled_from(META_KEYS), _value(_ISO_KINDS), max_size=3)),
     }
+    tsel = draw(st.sampled_from(["as_drawn"] * 8 + ["zero", "zero", "negative"]))
+    if tsel != "as_drawn":  # the ice point and below: valid temperatures in degrees Celsius (0 is falsy)
+        it["units"] = dict(it["units"], temperature_unit="°C")
+        it["T"] = 0.0 if tsel == "zero" else -round(it["T"] / 10.0, 2)
     if kind == "point":
         data = draw(S.iso_data(min_points=1, max_points=6, desorption=True, grid=6))
         n = len(data["pressure"])
